@@ -294,3 +294,35 @@ def status_summary(st):
     if hasattr(st, 'error'):
         d['error'] = '%s: %s' % (type(st.error).__name__, st.error)
     return d
+
+
+def type_order_witness(texts, error):
+    """Why is a generated type class used before it is defined?  (witness class of the open finding F-*-pysnmp-type-order)
+    texts: {module: MIB text};  error: the loader's message ending in "NameError: name 'X' is not defined".
+    -> 'declared-before-parent' (the MIB declares the derived type before its parent),
+       'plain-from-tc' (a plain type derived from a TEXTUAL-CONVENTION: all plain types are emitted first),
+       'emitted-out-of-order' (the MIB declares parent first and both are of one kind: the generator reordered them),
+       'unknown' (the name is not a type declared in these modules)."""
+    import re
+    m = re.search(r"name '([\w-]+)' is not defined", error or '')
+    if not m:
+        return 'unknown'
+    parent = m.group(1)
+    for text in texts.values():
+        decls = []      # (name, is_tc, parent type, position)
+        for mm in re.finditer(r'^([A-Za-z][\w-]*) ::= (TEXTUAL-CONVENTION\b[^\n]*(?:\n[ \t]+[^\n]*)*?\n?[ \t]*SYNTAX[ \t]+([A-Za-z][\w-]*)|([A-Za-z][\w-]*))', text, re.M):
+            is_tc = mm.group(2).startswith('TEXTUAL-CONVENTION')
+            decls.append((mm.group(1), is_tc, mm.group(3) if is_tc else mm.group(4), mm.start()))
+        byname = {d[0].replace('-', '_'): d for d in decls}
+        if parent not in byname:
+            continue
+        p = byname[parent]
+        kids = [d for d in decls if d[2] and d[2].replace('-', '_') == parent]
+        if not kids:
+            continue
+        if any(d[3] < p[3] for d in kids):
+            return 'declared-before-parent'
+        if p[1] and any(not d[1] for d in kids):
+            return 'plain-from-tc'
+        return 'emitted-out-of-order'
+    return 'unknown'
